@@ -1335,15 +1335,14 @@ SUBS = [("witness", sub_witness), ("coeffs", sub_coeffs), ("forward", sub_forwar
 FNS = {"witness": chk_witness, "coeffs": chk_coeffs, "forward": chk_forward, "prob_dists": chk_prob_dists, "rank": chk_rank, "ensemble": chk_ensemble, "history": chk_history}
 
 
-def regen_forward(ctx):
-    """translator tie (same protocol as flow.regen_check, with this property's own translator gen/c08_py2coq.py): regenerate Gallina
-    definitions of the index / stacking logic of the forward model (18 functions / statements, listed in coq/gen/C08_Equiv.v) from the
-    CURRENT source, compile them, and re-check coq/gen/C08_Equiv.v (regenerated == hand-written model for all inputs; the forward
-    theorems transported to the regenerated code). returns (ok, info)"""
+def regen_forward_job(scratch_root):
+    """translator tie, the part that does not touch ctx (runs in a thread next to the Props check): regenerate Gallina definitions of the
+    index / stacking logic of the forward model from the CURRENT source with gen/c08_py2coq.py, compile them, re-check coq/gen/C08_Equiv.v.
+    returns (ok, info, theorem names, {theorem: axioms})"""
     import os, re, shutil, subprocess, sys
     import runner
     V = runner.V
-    scratch = os.path.join(getattr(ctx, "scratch", os.path.join(V, "build", ctx.prop_id)), "gen")
+    scratch = os.path.join(scratch_root, "gen")
     os.makedirs(scratch, exist_ok=True)
     gen_v = os.path.join(scratch, "Gen_c08_forward.v")
     for stem in (gen_v[:-2], os.path.join(scratch, "C08_Equiv")):
@@ -1356,16 +1355,14 @@ def regen_forward(ctx):
     src = open(equiv).read()
     src_nc = re.sub(r"\(\*.*?\*\)", " ", src, flags=re.S)
     thms = re.findall(r"^\s*Theorem\s+([\w']+)", src_nc, flags=re.M)
-    ctx.theorems = list(ctx.theorems) + [t for t in thms if t not in ctx.theorems]
-    ctx.obligations += len(thms)
     r = subprocess.run([sys.executable, os.path.join(V, "gen", "c08_py2coq.py"), os.environ.get("VERIF_REPO", "/repo"), gen_v],
                        capture_output=True, text=True, timeout=120)
     if r.returncode != 0:
-        return False, {"theorem": thms[0], "error": "translator rejected the source (outside its subset): " + (r.stdout + r.stderr)[-600:]}
+        return False, {"theorem": thms[0], "error": "translator rejected the source (outside its subset): " + (r.stdout + r.stderr)[-600:]}, thms, {}
     q = ["-Q", os.path.join(V, "coq", "theories"), "QV", "-Q", scratch, "QVGen"]
     r = subprocess.run(["timeout", "300", "coqc"] + q + [gen_v], capture_output=True, text=True)
     if r.returncode != 0:
-        return False, {"theorem": thms[0], "error": "regenerated definitions do not compile: " + (r.stdout + r.stderr)[-600:]}
+        return False, {"theorem": thms[0], "error": "regenerated definitions do not compile: " + (r.stdout + r.stderr)[-600:]}, thms, {}
     dst = os.path.join(scratch, "C08_Equiv.v")
     shutil.copy(equiv, dst)
     r = subprocess.run(["timeout", "600", "coqc"] + q + [dst], capture_output=True, text=True)
@@ -1377,15 +1374,12 @@ def regen_forward(ctx):
             upto = "\n".join(src.splitlines()[:int(m_.group(1))])
             names = re.findall(r"^\s*(?:Theorem|Lemma)\s+([\w']+)", upto, flags=re.M)
             thm = names[-1] if names else None
-        return False, {"theorem": thm, "error": out[-800:]}
+        return False, {"theorem": thm, "error": out[-800:]}, thms, {}
     blocks = runner.parse_assumptions(out)
     bad = [a for closed, axs in blocks for a in axs if a not in runner.ALLOWED_AXIOMS and a.split(".")[-1] not in runner.ALLOWED_AXIOMS]
     if len(blocks) != len(thms) or bad:
-        return False, {"theorem": thms[0], "error": "assumption gate on regenerated proofs: %d blocks / %d theorems, disallowed %s" % (len(blocks), len(thms), bad)}
-    for t, (closed, axs) in zip(thms, blocks):
-        ctx.axioms[t] = "closed" if closed else sorted(set(axs))
-    ctx.discharged += len(thms)
-    return True, {}
+        return False, {"theorem": thms[0], "error": "assumption gate on regenerated proofs: %d blocks / %d theorems, disallowed %s" % (len(blocks), len(thms), bad)}, thms, {}
+    return True, {}, thms, {t: ("closed" if closed else sorted(set(axs))) for t, (closed, axs) in zip(thms, blocks)}
 
 
 def run(ctx):
@@ -1404,8 +1398,26 @@ def run(ctx):
                        "C08 translator tie: typing table and abstractions of gen/c08_py2coq.py (State = its .vec, Povm = its .vecs, a schedule = the list "
                        "of its item indices, np.sqrt(dim) -> sd, int(dim*dim) -> vec_size, rank tests decided by declared types, never-read variables dropped)"]
     # flow.standard_run with this property's own translator tie (flow.regen_check is bound to gen/py2coq.py)
+    # the regenerated-model obligations are checked concurrently with Props/C08.v (two independent coqc chains)
+    import os, threading
+    box = {}
+    scratch_root = getattr(ctx, "scratch", os.path.join(runner.V, "build", ctx.prop_id))
+
+    def job():
+        try:
+            box["r"] = regen_forward_job(scratch_root)
+        except Exception as e:           # a crashed tie is a broken tie
+            box["r"] = (False, {"theorem": None, "error": "translator tie crashed: %r" % (e,)}, [], {})
+    th = threading.Thread(target=job)
+    th.start()
     ok, info = runner.check_props(ctx)
-    ok2, info2 = regen_forward(ctx)
+    th.join()
+    ok2, info2, thms2, ax2 = box["r"]
+    ctx.theorems = list(ctx.theorems) + [t for t in thms2 if t not in ctx.theorems]
+    ctx.obligations += len(thms2)
+    if ok2:
+        ctx.axioms.update(ax2)
+        ctx.discharged += len(thms2)
     if not ok2:
         ok, info = False, info2
         ctx.tie_broken = True       # the correspondence sub-checks then run with the thorough-tier case counts (search for a failing input)
